@@ -30,7 +30,7 @@ RULE = (
     "unchanged. Heat diagram: label = name + loss with SI prefix within 0.5 % of the "
     "duration-weighted loss recomputed from solve(); fill colour decodes to mix = "
     "loss/maxloss within one 8-bit step (largest loss #ff1210, zero loss #2120ff); legend "
-    "shows the maximum loss. A third stream checks the SI formatter on 1e-15..1e9 directly. "
+    "shows the maximum loss. Stream 'after_history' runs the same oracle on systems reached through generated edit histories (renames, deletions, re-adds, mux edits). A further stream checks the SI formatter on 1e-15..1e9 directly. "
     "Non-trivial: >= 2 groups, an ungrouped node and overrides at >= 2 levels for the same "
     "attribute; heat: >= 3 distinct losses incl. a zero; distinct by (spec hash, config)."
 )
@@ -170,10 +170,10 @@ def hex_rgb(h):
 COLD, WARM = (0x21, 0x20, 0xff), (0xff, 0x12, 0x10)
 
 
-def check_diagram(spec, conf, heat, stats):
+def check_diagram(spec, conf, heat, stats, sys=None):
     from sysloss.diagram import get_conf, make_diag, make_hdiag
 
-    sys = B.build(spec)
+    sys = sys or B.build(spec)
     cfg = build_config(conf)
     pristine = copy.deepcopy(cfg)
     grp = conf["group"]
@@ -183,10 +183,14 @@ def check_diagram(spec, conf, heat, stats):
             warnings.simplefilter("ignore")
             try:
                 (make_hdiag if heat else make_diag)(sys, fname=f, group=grp, config=cfg)
-            except (ValueError, RuntimeError):
+            except (ValueError, RuntimeError) as e:
                 if heat:
                     raise Skip("not_solved")
-                raise
+                raise Fail("diagram.exception.ValueError", "make_diag raised {}".format(e))
+            except Exception as e:
+                raise Fail("diagram.exception." + type(e).__name__,
+                           "{} raised {}: {}".format("make_hdiag" if heat else "make_diag",
+                                                     type(e).__name__, e))
         text = open(f).read()
     if cfg != pristine:
         raise Fail("config_mutated", "the configuration passed in was changed")
@@ -335,6 +339,42 @@ def body(case, stats):
                       sample={"conf": conf, **S.summarize(spec)})
 
 
+@st.composite
+def history_cases(draw):
+    from vlib.props.c12 import histories
+    return {"ops": draw(histories()), "seedconf": draw(st.integers(0, 10 ** 6)),
+            "group": draw(st.booleans()),
+            "rankdir": draw(st.sampled_from(["TB", "BT", "LR", "RL"]))}
+
+
+def body_history(case, stats):
+    """The diagram of a system reached through an edit history shows exactly that system."""
+    from vlib import machine as M
+    from vlib.runner import Stats
+
+    d = M.replay_ops(case["ops"], set(), Stats())
+    if not d.in_sync():
+        stats.cls("history_out_of_model")
+        return
+    spec = {"name": "Sys", "phases": d.model["phases"], "nodes": M.topo_nodes(d.model)}
+    names = [n["name"] for n in spec["nodes"]]
+    pick = names[case["seedconf"] % len(names)]
+    conf = {"overrides": {"node": {pick: {"shape": "hexagon"},
+                                   spec["nodes"][0]["kind"]: {"fillcolor": "gold"}},
+                          "cluster": {}, "graph": {"rankdir": case["rankdir"]}, "edge": {}},
+            "use_default": False, "group": case["group"]}
+    check_diagram(spec, conf, False, stats, sys=d.sys)
+    try:
+        check_diagram(spec, conf, True, stats, sys=d.sys)
+    except Skip:
+        stats.cls("hdiag_not_solved")
+    stats.cls("after_history")
+    if len(names) >= 4 and any(t in d.flags for t in (
+            "renamed", "renamed_mux_input", "deleted_keep_children", "deleted_subtree",
+            "mux_input_deleted_children_kept")):
+        stats.nontriv(jhash(case["ops"]), sample=[M.op_text(o) for o in case["ops"]][:10])
+
+
 def body_nice(x, stats):
     from sysloss.diagram import _nice_float
 
@@ -364,6 +404,8 @@ def streams(tier, avoid):
                n={"quick": 250, "thorough": 2000}, reduce=_reduce),
         Stream("phases", body, strategy=cases(G.Opts(phases=True, **common)),
                n={"quick": 150, "thorough": 1200}, reduce=_reduce),
+        Stream("after_history", body_history, strategy=history_cases(),
+               n={"quick": 100, "thorough": 800}),
         Stream("si_format", body_nice, strategy=G.logf(1e-15, 1e9),
                n={"quick": 5000, "thorough": 50000}),
     ]
